@@ -153,6 +153,18 @@ def _sleep_dispatch(d):
     return REAL_SLEEP(d)
 
 
+def _time_dispatch():
+    if _from_sut():
+        return ENV.now()
+    return REAL_TIME()
+
+
+def _monotonic_dispatch():
+    if _from_sut():
+        return ENV.now() - T0 + 1000.0
+    return REAL_MONOTONIC()
+
+
 def _uniform_dispatch(a, b):
     if _from_sut():
         return (a + b) / 2.0
@@ -199,6 +211,10 @@ def install() -> None:
     # function-local `import time` (Transaction.commit -> time.sleep) is served
     # by a caller-dispatching global sleep.
     _time.sleep = _sleep_dispatch
+    # function-local `import time` inside datashard code sees the real module: time() / monotonic() dispatch on the
+    # CALLER's module, so everybody else (multiprocessing, logging, ...) keeps the real clock
+    _time.time = _time_dispatch
+    _time.monotonic = _monotonic_dispatch
     _dt.datetime = VDateTime
     _random.uniform = _uniform_dispatch
     _tempfile._get_candidate_names = _candidate_names
@@ -232,3 +248,11 @@ def install() -> None:
 
     for m in (fl, gcm, lp, s3c):
         m.time = TIME
+    # any other datashard module that binds the real `time` module / `datetime` class at import time (a refactoring
+    # may add such an import): same seams, so that wall-clock values never leak into names or file contents
+    for name, m in list(sys.modules.items()):
+        if name.startswith("datashard") and m is not None:
+            if getattr(m, "time", None) is _time:
+                m.time = TIME
+            if getattr(m, "datetime", None) is REAL_DATETIME:
+                m.datetime = VDateTime
